@@ -229,7 +229,7 @@ func init() {
 		}
 		snapped = true
 		ev["err"] = errStr(err)
-		ev["nil_on_err"] = err == nil || out == nil
+		ev["nil_on_err"] = err == nil || len(out) == 0 // "no plaintext": nothing handed back (nil or empty)
 		ev["same_array"] = sameArray(out, whole)
 		used := len(out)
 		if err != nil || !sameArray(out, whole) {
@@ -264,7 +264,7 @@ func init() {
 			out2, err2 := a.Open(dst, nonce, in, aad)
 			ev["out2"] = B(out2)
 			ev["err2"] = errStr(err2)
-			ev["nil_on_err2"] = err2 == nil || out2 == nil
+			ev["nil_on_err2"] = err2 == nil || len(out2) == 0
 		}
 	})
 }
